@@ -116,9 +116,16 @@ struct TObj : IObj {
 
 static std::map<int, std::unique_ptr<IObj>> objs;
 
-static IObj& at(const std::string& id) { auto it = objs.find(atoi(id.c_str())); if (it == objs.end()) throw std::logic_error("bad-op"); return *it->second; }
+struct no_object {};
+static IObj& at(const std::string& id) { auto it = objs.find(atoi(id.c_str())); if (it == objs.end()) throw no_object(); return *it->second; }
 
+static std::string step_(const std::vector<std::string>& w);
+// an op naming an object that does not exist (its constructor threw) is answered `no-object` by harness and model
 static std::string step(const std::vector<std::string>& w) {
+  try { return step_(w); } catch (const no_object&) { return "no-object"; }
+}
+
+static std::string step_(const std::vector<std::string>& w) {
   const std::string& op = w[0];
   if (op == "new" && w.size() == 6) {
     int id = atoi(w[1].c_str());
